@@ -197,7 +197,13 @@ fn check(ctx: &Ctx) -> i32 {
             if l.samples.len() < 3 && (i + ctx.seed) % 40009 == 7 {
                 l.samples.push(json!({"url": format!("{}{}", BASE, suffix), "rule_sets": subjects.len(), "types": TYPES, "sources": SOURCES}));
             }
+            // (sets of three rules are run on suffixes one symbol shorter than the longest ones:
+            // the full product does not fit the thorough tier's time cap)
+            let longest = suffix.chars().count() as u32 == n;
             for s in subjects {
+                if longest && s.texts.len() > 2 {
+                    continue;
+                }
                 for ty in TYPES {
                     for src in SOURCES {
                         check_one(s, &suffix, ty, src, l);
@@ -286,7 +292,7 @@ fn check(ctx: &Ctx) -> i32 {
     });
     ctx.finish(
         "model_checking",
-        "URL = https://x.com/p + every string of length <= n over {?,#,&,=,a,b,é}; x every subset of <= 2 (quick) / <= 3 (thorough) rules of the 8-rule pool; a second sweep one symbol shallower over the alphabet extended with an upper-case key and the multi-character key `utm` (engines built once per worker thread) x 5 request types x 2 initiators; a third sweep two symbols shallower behind 6 other spellings of the base (scheme case, empty userinfo, default port, IDN label, dot segments: the caller's spelling must survive); non-trivial = the engine reported a rewritten URL; states = engines built, transitions = requests checked, every one compared byte for byte with the reference",
+        "URL = https://x.com/p + every string of length <= n over {?,#,&,=,a,b,é}; x every subset of <= 2 (quick) / <= 3 (thorough; on suffixes up to n-1) rules of the 11-rule pool (+ four fixed triples in the quick tier); a second sweep one symbol shallower over the alphabet extended with an upper-case key and the multi-character key `utm` (engines built once per worker thread) x 5 request types x 2 initiators; a third sweep two symbols shallower behind 6 other spellings of the base (scheme case, empty userinfo, default port, IDN label, dot segments: the caller's spelling must survive); non-trivial = the engine reported a rewritten URL; states = engines built, transitions = requests checked, every one compared byte for byte with the reference",
         &["per-rule applicability is taken from the real public matcher (differential), the rewrite itself from the independent reference"],
     )
 }
